@@ -97,3 +97,93 @@ Definition drop_aug (o : dopts) (a : dacc) : dacc :=
 
 Definition declared (T : rtab) (o : dopts) (ds : list desc) : list dacc :=
   map (drop_aug o) (filter (retained o) (fold_descs T o ds)).
+
+(* ---------- the whole declaration: what precedes the descriptors ----------
+   parse_js_module_from_module_info: self-types and triple-slash references, the JSX import source,
+   JSDoc imports and the x-typescript-types header are entered BEFORE the descriptors are folded in,
+   so an import of the same text finds their entry. *)
+Inductive tsref := TsPath (text range : N) | TsTypes (text range : N).
+Record extras := {
+  ex_self : option (N * N);            (* @ts-self-types: text, range *)
+  ex_refs : list tsref;
+  ex_jsx : option (N * N);             (* "<source>/jsx-runtime" as text, range of the pragma *)
+  ex_jsx_types : option (N * N);       (* "<types source>/jsx-runtime" as text, range *)
+  ex_jsdoc : list (N * N);
+  ex_header : option N                 (* x-typescript-types header text *)
+}.
+Record fopts := { fo_base : dopts; fo_jsx : bool; fo_zero_range : N }.   (* media is JSX/TSX; the id of the zeroed range *)
+
+(* modify the entry of [text], creating it when absent *)
+Fixpoint with_entry (text : N) (f : dacc -> dacc) (l : list dacc) : list dacc :=
+  match l with
+  | [] => [f (empty_acc text)]
+  | a :: l' => if N.eqb (da_text a) text then f a :: l' else a :: with_entry text f l'
+  end.
+Definition bump (a : dacc) : dacc :=
+  {| da_text := da_text a; da_attr := da_attr a; da_code := da_code a; da_type := da_type a; da_dyn := da_dyn a;
+     da_deno := da_deno a; da_imports := da_imports a + 1; da_nonaug := da_nonaug a + 1 |}.
+Definition set_type_if_none (r : dres) (a : dacc) : dacc :=
+  {| da_text := da_text a; da_attr := da_attr a; da_code := da_code a; da_type := (if is_dnone (da_type a) then r else da_type a);
+     da_dyn := da_dyn a; da_deno := da_deno a; da_imports := da_imports a; da_nonaug := da_nonaug a |}.
+
+Definition tdep := option (N * dres).    (* maybe_types_dependency: text, resolution *)
+
+Definition add_ref (T : rtab) (o : dopts) (st : tdep * list dacc) (r : tsref) : tdep * list dacc :=
+  let '(td, l) := st in
+  match r with
+  | TsPath text range =>
+      (td, with_entry text (fun a => bump (set_type_if_none (resolve_in (rt_types T) text range) a)) l)
+  | TsTypes text range =>
+      if negb (do_typed o) then
+        match td with
+        | Some _ => (td, l)
+        | None => (Some (text, resolve_in (rt_types T) text range), l)
+        end
+      else (td, with_entry text (fun a => bump (set_type_if_none (resolve_in (rt_types T) text range) a)) l)
+  end.
+
+Definition add_jsx (T : rtab) (o : dopts) (x : extras) (l : list dacc) : list dacc :=
+  match ex_jsx x with
+  | None => l
+  | Some (text, range) =>
+      with_entry text (fun a =>
+        let code := if is_dnone (da_code a) then resolve_in (rt_exec T) text range else da_code a in
+        let '(ty, deno) :=
+          if do_types o && is_dnone (da_type a) then
+            match ex_jsx_types x with
+            | Some (jt, tr) => (resolve_in (rt_types T) jt tr, Some jt)
+            | None =>
+                let r := resolve_in (rt_types T) text range in
+                (if optN_eqb (dres_spec r) (dres_spec code) then da_type a else r, da_deno a)
+            end
+          else (da_type a, da_deno a) in
+        bump {| da_text := da_text a; da_attr := da_attr a; da_code := code; da_type := ty; da_dyn := da_dyn a;
+                da_deno := deno; da_imports := da_imports a; da_nonaug := da_nonaug a |}) l
+  end.
+
+Definition pre_phase (T : rtab) (fo : fopts) (x : extras) : tdep * list dacc :=
+  let o := fo_base fo in
+  let st0 : tdep * list dacc :=
+    if do_types o then
+      fold_left (add_ref T o) (ex_refs x)
+        (match ex_self x with Some (t, r) => Some (t, resolve_in (rt_types T) t r) | None => None end, [])
+    else (None, []) in
+  let l1 := if fo_jsx fo then add_jsx T o x (snd st0) else snd st0 in
+  let l2 := if do_types o
+            then fold_left (fun l j => with_entry (fst j) (fun a => bump (set_type_if_none (resolve_in (rt_types T) (fst j) (snd j)) a)) l)
+                           (ex_jsdoc x) l1
+            else l1 in
+  let td := match fst st0, ex_header x with
+            | None, Some h => if do_types o then Some (h, resolve_in (rt_types T) h (fo_zero_range fo)) else None
+            | td0, _ => td0
+            end in
+  (td, l2).
+
+Definition declared_full (T : rtab) (fo : fopts) (x : extras) (ds : list desc) : tdep * list dacc :=
+  let o := fo_base fo in
+  let '(td, l0) := pre_phase T fo x in
+  (td, map (drop_aug o) (filter (retained o)
+             (fold_left (fun l i => if skipped o i then l else upd T o i l) ds l0))).
+
+Definition no_extras : extras :=
+  {| ex_self := None; ex_refs := []; ex_jsx := None; ex_jsx_types := None; ex_jsdoc := []; ex_header := None |}.
